@@ -870,7 +870,7 @@ theorem commitFromRecords_rd (lx : Bool) (m m' : Mem) (ft : Nat) (hi : Inv m) (h
     by_cases hne : δ.nonEmpty = true
     · simp only [hne, if_true] at s ⊢
       exact s.rdOk rfl rfl rfl rfl rfl rfl rfl
-    · simp only [hne, if_false] at s ⊢
+    · simp only [hne] at s ⊢
       exact s.rdOk rfl rfl rfl rfl rfl rfl rfl
 
 theorem commit_rd (lx : Bool) (m : Mem) (ft : Nat) (hi : Inv m) (hr : RdOk lx m) : RdOk lx (m.commit ft).1 := by
@@ -1046,9 +1046,8 @@ theorem loadTracks_same (m2 : Mem) : Same m2.loadTracks m2 :=
 
 theorem openFrom_rd (lx : Bool) (m : Mem) (ft : Nat) (hok : AllOk m.frames.length m.pending) (hr : RdOk lx m) :
     RdOk lx (m.openFrom ft) := by
-  have h1 := recoverWal_rd lx m.openLoad ft hok (openLoad_rd lx m hr)
   unfold Mem.openFrom
-  exact RdOk.of_same (loadTracks_same _) h1
+  exact recoverWal_rd lx m.openLoad.loadTracks ft hok (RdOk.of_same (loadTracks_same _) (openLoad_rd lx m hr))
 
 theorem reopen_rd (lx : Bool) (m : Mem) (a b : Nat) (hi : Inv m) (hr : RdOk lx m) : RdOk lx (m.reopen a b).1 :=
   openFrom_rd lx (m.dropHandle a) b (dropHandle_inv m a hi).ok (dropHandle_rd lx m a hi hr)
@@ -1171,7 +1170,9 @@ theorem doctor_rd (lx : Bool) (m : Mem) (vac rt rl rv : Bool) (a b c d : Nat) (h
     · exact h1
   have hd2 := dropHandle_inv _ c h2.1.inv
   unfold Mem.doctor
-  exact openFrom_rd lx _ d hd2.ok (dropHandle_rd lx _ c h2.1.inv h2.2)
+  split
+  · exact openFrom_rd lx _ d hd2.ok (dropHandle_rd lx _ c h2.1.inv h2.2)
+  · exact openFrom_rd lx _ d hd.ok (dropHandle_rd lx m a hi hr)
 
 /-! ### every operation -/
 
